@@ -373,16 +373,26 @@ Definition feeder_ok (fd : list (nat * nat)) (v f : nat) : bool :=
     [fc = false]: the raw [msg.Validator] string *)
 Definition voter_string (fc : bool) (raw : astr) (v : nat) : astr := if fc then canon v else raw.
 
-(** MsgAggregateExchangeRateVote.ValidateBasic + ParseExchangeRateTuples: at least one tuple, no duplicate pair,
-    every rate a LegacyDec of at most 255+60 bits *)
+(** MsgAggregateExchangeRateVote.ValidateBasic + ParseExchangeRateTuples (NewExchangeRateTuplesFromString): at least one
+    tuple, no pair named twice ANYWHERE in the string, every rate a LegacyDec of at most 255+60 bits *)
 Fixpoint nodup_pairs (l : list (nat * Z)) : bool :=
   match l with
   | [] => true
   | t :: r => negb (existsb (fun u => Nat.eqb (fst u) (fst t)) r) && nodup_pairs r
   end.
+(** the duplicate test that only compares each tuple's pair with the directly preceding one *)
+Fixpoint no_adjacent_dup (l : list (nat * Z)) : bool :=
+  match l with
+  | t :: ((u :: _) as r) => negb (Nat.eqb (fst t) (fst u)) && no_adjacent_dup r
+  | _ => true
+  end.
 Definition RATE_BITS : Z := 2 ^ 315.
-Definition tuples_ok (ts : list (nat * Z)) : bool :=
-  (match ts with [] => false | _ => true end) && nodup_pairs ts && forallb (fun t => Z.abs (snd t) <? RATE_BITS) ts.
+(** [dc = true]: the current NewExchangeRateTuplesFromString — a set of ALL pairs seen so far, a repeated pair anywhere in
+    the string is a parse error; [dc = false]: only a pair equal to the PRECEDING one is refused *)
+Definition tuples_ok_gen (dc : bool) (ts : list (nat * Z)) : bool :=
+  (match ts with [] => false | _ => true end) && (if dc then nodup_pairs ts else no_adjacent_dup ts) &&
+  forallb (fun t => Z.abs (snd t) <? RATE_BITS) ts.
+Definition tuples_ok : list (nat * Z) -> bool := tuples_ok_gen true.
 
 Definition deliver_prevote (fc : bool) (h : Z) (s : mstate) (m : pmsg) : mstate * bool :=
   match decode (pm_validator m), decode (pm_feeder m) with
@@ -398,14 +408,14 @@ Definition deliver_prevote (fc : bool) (h : Z) (s : mstate) (m : pmsg) : mstate 
 (** the reveal: a prevote of the same validator from the immediately preceding vote period whose hash is the
     hash of (salt, exchange-rate string, valAddr.String()); every pair whitelisted; then Votes.Insert and
     Prevotes.Delete *)
-Definition deliver_vote (fc : bool) (p : params) (wl : list nat) (h : Z) (s : mstate) (m : vmsg) : mstate * bool :=
+Definition deliver_vote (fc dc : bool) (p : params) (wl : list nat) (h : Z) (s : mstate) (m : vmsg) : mstate * bool :=
   match decode (vm_validator m), decode (vm_feeder m) with
   | Some v, Some f =>
       match find_sprev v (ms_prevotes s) with
       | Some pv =>
           if feeder_ok (ms_feeders s) v f && vm_bonded m &&
              (h / p_vote_period p - sp_submit pv / p_vote_period p =? 1) &&
-             tuples_ok (vm_tuples m) && forallb (fun t => memb (fst t) wl) (vm_tuples m) &&
+             tuples_ok_gen dc (vm_tuples m) && forallb (fun t => memb (fst t) wl) (vm_tuples m) &&
              chash_eqb (sp_hash pv) (mkHash (vm_salt m) (vm_rates m) (canon v))
           then (mkMS (ms_rates s)
                      (put_svote (mkSV v (voter_string fc (vm_validator m) v) (vm_tuples m)) (ms_votes s))
@@ -425,19 +435,19 @@ Definition deliver_delegate (s : mstate) (m : dmsg) : mstate * bool :=
   | _, _ => (s, false)
   end.
 
-Definition deliver (fc : bool) (p : params) (wl : list nat) (h : Z) (s : mstate) (m : omsg) : mstate * bool :=
+Definition deliver (fc dc : bool) (p : params) (wl : list nat) (h : Z) (s : mstate) (m : omsg) : mstate * bool :=
   match m with
   | MPrevote m => deliver_prevote fc h s m
-  | MVote m => deliver_vote fc p wl h s m
+  | MVote m => deliver_vote fc dc p wl h s m
   | MDelegate m => deliver_delegate s m
   end.
 
 (** the messages of one block in order; the list of accept flags *)
-Fixpoint deliver_all (fc : bool) (p : params) (wl : list nat) (h : Z) (s : mstate) (ms : list omsg) : mstate * list bool :=
+Fixpoint deliver_all (fc dc : bool) (p : params) (wl : list nat) (h : Z) (s : mstate) (ms : list omsg) : mstate * list bool :=
   match ms with
   | [] => (s, [])
-  | m :: r => let (s1, a) := deliver fc p wl h s m in
-              let (s2, acc) := deliver_all fc p wl h s1 r in (s2, a :: acc)
+  | m :: r => let (s1, a) := deliver fc dc p wl h s m in
+              let (s2, acc) := deliver_all fc dc p wl h s1 r in (s2, a :: acc)
   end.
 
 (** groupVotesByPair looks the voter up with [validatorPerformances[aggregateVote.Voter]]: a map keyed by
@@ -459,9 +469,9 @@ Record mstep := mkMStep { mp_msgs : list omsg; mp_h : Z }.
 
 Definition keep_sprev (p : params) (h : Z) (x : sprev) : bool := h <? sp_submit x + p_vote_period p.
 
-Definition mhist_step (fc fx : bool) (p : params) (e : henv) (s : mstate) (x : mstep)
+Definition mhist_step (fc dc fx : bool) (p : params) (e : henv) (s : mstate) (x : mstep)
   : list bool * option (mstate * list (nat * Z)) :=
-  let (s1, acc) := deliver_all fc p (he_whitelist e) (mp_h x) s (mp_msgs x) in
+  let (s1, acc) := deliver_all fc dc p (he_whitelist e) (mp_h x) s (mp_msgs x) in
   match end_block fx p (env_state e (votes_seen (ms_votes s1)) (ms_rates s1)) (mp_h x) with
   | Panic => (acc, None)
   | Done rs evs =>
@@ -471,12 +481,12 @@ Definition mhist_step (fc fx : bool) (p : params) (e : henv) (s : mstate) (x : m
   end.
 
 (** accept flags and published events of each block of a message-level history (stops after a panic) *)
-Fixpoint mhist_events (fc fx : bool) (p : params) (s : mstate) (xs : list (henv * mstep))
+Fixpoint mhist_events (fc dc fx : bool) (p : params) (s : mstate) (xs : list (henv * mstep))
   : list (list bool * list (nat * Z)) :=
   match xs with
   | [] => []
-  | (e, x) :: r => match mhist_step fc fx p e s x with
+  | (e, x) :: r => match mhist_step fc dc fx p e s x with
                    | (acc, None) => [(acc, [])]
-                   | (acc, Some (s', evs)) => (acc, evs) :: mhist_events fc fx p s' r
+                   | (acc, Some (s', evs)) => (acc, evs) :: mhist_events fc dc fx p s' r
                    end
   end.
